@@ -29,17 +29,28 @@ RULE = (
 
 PARAMS = {
     'quick': dict(full=0, dense=4, light=40, near=4, near_level=0, garbage=12, opt_pairs=60),
-    'thorough': dict(full=10, dense=40, light=400, near=60, near_level=1, garbage=150, opt_pairs=400),
+    'thorough': dict(full=6, dense=24, light=400, near=24, near_level=1, garbage=50, opt_pairs=300),
 }
 EXPECT = 'compact(x) == compact(y)  =>  validate(x), validate(y) both rejected or both accepted with the same value'
 
 
+_WS_LABELS = None
+
+
 def site_label(lab):
+    """decoration class used in the site: the inserted/substituted character class without the position; all
+    white space / control characters that are not in the clean-up table count as one class"""
+    global _WS_LABELS
+    if _WS_LABELS is None:
+        cm = G.char_map()
+        _WS_LABELS = set(G.char_class(w) for w in common.WHITESPACE if w not in cm)
     p = lab.split(':')
     if p[0] == 'ws':
-        return 'insert:' + (p[2] if len(p) > 2 else 'whitespace-mix')
+        c = p[2] if len(p) > 2 else 'whitespace'
+        return 'insert:' + ('whitespace' if c in _WS_LABELS else c)
     if p[0] == 'insert':
-        return 'insert:' + ':'.join(p[1:-1])
+        c = ':'.join(p[1:-1])
+        return 'insert:' + ('whitespace' if c in _WS_LABELS else c)
     if p[0] == 'case':
         return 'case'
     return lab
@@ -69,7 +80,7 @@ def _worker(task):
     modname, part, nparts, seed, tier = task
     mod = common.module(modname)
     sc = G.budget_scale(mod)
-    P = dict((k, G.scaled(v, sc)) for k, v in PARAMS[tier].items())
+    P = G.scaled_params(PARAMS[tier], sc)
     rng = G.task_rng(seed, PROPERTY, modname, part)
     fnd, st = G.Findings(), G.Stats()
     rf = G.relfile(mod)
